@@ -96,6 +96,7 @@ type Path struct {
 	inputs      []*Term // declared symbolic inputs in order
 	inputSet    map[string]*Term
 	choices     map[string]uint64
+	mapDev      int // map ranges iterated in a permuted order so far
 	observed    []string
 	reached     map[string]bool
 	steps       int64
